@@ -739,10 +739,10 @@ def transpose_contracts():
                        # out of range: rejected (IndexError)
                        (1, (1,)), (2, (0, 2)), (3, (0, 1, 3)), (3, (-4, 1, 2)), (2, (-3, 0))]:
         live.append(Transpose(ndim, axes))
-    # NumPy rejects these; nutils accepts most of them (candidate defect, notes/C07-shape.md): parked
+    # NumPy rejects these; on the pinned commit nutils accepted most of them (repaired, see known_findings.json)
     for ndim, axes in [(2, (0, 0)), (2, (1, -1)), (3, (0, 0, 1)), (3, (2, 1, -1)),  # repeated axis
                        (1, ()), (2, (0,)), (3, (0, 1)), (3, (0, 1, 2, 0)), (0, (0,))]:  # wrong number of axes
-        parked.append(Transpose(ndim, axes))
+        live.append(Transpose(ndim, axes))
     for ndim, a, b in [(0, 0, 0), (1, 0, 0), (1, -1, 0), (1, 1, 0), (1, 0, -2),
                        (2, 0, 1), (2, 1, 0), (2, -1, 0), (2, 0, -2), (2, 1, 1), (2, -1, -2), (2, 2, 0), (2, 0, -3),
                        (3, 0, 2), (3, 2, 1), (3, -1, 0), (3, 1, -3), (3, -2, -1), (3, 1, 1), (3, 3, 0), (3, 0, -4)]:
@@ -940,15 +940,17 @@ class PrependAxes(ShapeContract):
 
 
 class Unravel(ShapeContract):
-    """unravel(array, axis, (a, b)) with axis >= 0: axis `axis` is replaced by two axes of lengths a, b; an axis >= ndim is rejected."""
+    """unravel(array, axis, (a, b)): axis `axis` (negative allowed) is replaced IN PLACE by two axes of lengths a, b; rejected (ValueError) exactly
+    when a * b differs from the axis length; an axis outside [-ndim, ndim) is rejected.  (On the pinned commit the size was not checked and a
+    negative axis moved the second new axis to the front: repaired, see known_findings.json.)"""
     fn = 'function:unravel'
 
-    def __init__(self, ndim, axis, size_check=False):
+    def __init__(self, ndim, axis, size_check=True):
         self.ndim, self.axis, self.size_check = ndim, axis, size_check
-        self.label = 'ndim=%d,axis=%d' % (ndim, axis) + (',size-check' if size_check else '')
-        self.bounded = 'rank (<= 3) and axis (>= 0) fixed; every length symbolic (>= 0)'
+        self.label = 'ndim=%d,axis=%d' % (ndim, axis)
+        self.bounded = 'rank (<= 3) and axis fixed; every length symbolic (>= 0)'
         self.native_recipe = ('unravel', {'ndim': ndim, 'axis': axis})
-        self.expect_return = axis < ndim
+        self.expect_return = -ndim <= axis < ndim
 
     def setup(self, cx):
         w, g = self.world()
@@ -957,16 +959,18 @@ class Unravel(ShapeContract):
         return State(args=(FArr(w, lens, FLOAT), self.axis, (SInt(ab[0]), SInt(ab[1]))), lens=lens, ab=ab, world=w, globals=g)
 
     def raises(self, cx, S, e):
-        return self.axis >= self.ndim
+        if not self.expect_return:
+            return True
+        if e.exc == 'ValueError':
+            return S.ab[0] * S.ab[1] != S.lens[self.axis % self.ndim]
+        return False
 
     def ensures(self, cx, S, result):
-        if self.axis >= self.ndim:
+        if not self.expect_return:
             return [('rejects-axis-out-of-range', z3.BoolVal(False))]
-        want = S.lens[:self.axis] + S.ab + S.lens[self.axis + 1:]
-        out = [('axis-split', eqshape(result_lens(result), want))]
-        if self.size_check:
-            out.append(('size-preserved', S.ab[0] * S.ab[1] == S.lens[self.axis]))
-        return out
+        a = self.axis % self.ndim
+        want = S.lens[:a] + S.ab + S.lens[a + 1:]
+        return [('axis-split', eqshape(result_lens(result), want)), ('size-preserved', S.ab[0] * S.ab[1] == S.lens[a])]
 
 
 class Get(ShapeContract):
@@ -1073,7 +1077,7 @@ def indexing_contracts():
     for which in ('_prepend_axes', '_append_axes'):
         for ndim, nnew in [(0, 0), (1, 0), (0, 2), (1, 1), (2, 2)]:
             cs.append(PrependAxes(which, ndim, nnew))
-    for ndim, axis in [(1, 0), (2, 0), (2, 1), (3, 0), (3, 1), (3, 2), (1, 1), (0, 0)]:
+    for ndim, axis in [(1, 0), (2, 0), (2, 1), (3, 0), (3, 1), (3, 2), (1, 1), (0, 0), (1, -1), (2, -1), (2, -2), (3, -1), (3, -3), (2, -3)]:
         cs.append(Unravel(ndim, axis))
     for ndim, axis in [(1, 0), (1, -1), (2, 0), (2, 1), (2, -2), (3, 1), (3, -1), (0, 0), (1, 1), (2, -3), (3, 3)]:
         cs.append(Get(ndim, axis))
@@ -1101,20 +1105,22 @@ class Reshape(ShapeContract):
     internal assertions may fail for an accepted request.
 
     domain 'positive': all lengths >= 1 (non-empty arrays, the live contracts);
-    domain 'nonneg'  : lengths >= 0  -- PARKED, fails on the unchanged tree (zero-length axes: ZeroDivisionError / AssertionError);
-    domain 'any'     : requested lengths any integer != -1 -- PARKED, fails (negative lengths other than -1 are accepted)."""
+    domain 'nonneg'  : lengths >= 0  -- fails on the unchanged tree (zero-length axes: ZeroDivisionError / AssertionError): recorded KNOWN FINDING
+                       (known_findings.json; carve-out = the 'positive' contract of the same pattern);
+    domain 'nonzero' : non-empty array, requested lengths any integer but -1 and 0 (negative lengths must be rejected: failed on the pinned
+                       commit, repaired)."""
     fn = 'function:__implementations__.reshape'
 
     def __init__(self, ndim, pattern, domain='positive', as_int=False):
         self.ndim, self.pattern, self.domain, self.as_int = ndim, tuple(pattern), domain, as_int
         self.label = 'ndim=%d,newshape=%s' % (ndim, '-1' if as_int else '(' + ','.join('n' if p == 's' else '-1' for p in pattern) + ')') + ('' if domain == 'positive' else ',domain=' + domain)
-        self.bounded = 'rank (<= 3), len(newshape) (<= 3) and the position of -1 fixed; every length symbolic (%s)' % {'positive': '>= 1', 'nonneg': '>= 0', 'any': 'requested: any integer but -1'}[domain]
+        self.bounded = 'rank (<= 3), len(newshape) (<= 3) and the position of -1 fixed; every length symbolic (%s)' % {'positive': '>= 1', 'nonneg': '>= 0', 'nonzero': 'array >= 1, requested: any integer but -1 and 0'}[domain]
         self.native_recipe = ('reshape', {'ndim': ndim, 'pattern': list(pattern), 'as_int': as_int})
         self.expect_return = self.pattern.count(-1) <= 1
 
     def setup(self, cx):
         w, g = self.world()
-        lo = 1 if self.domain == 'positive' else 0
+        lo = 0 if self.domain == 'nonneg' else 1
         lens = self.fresh_lens(cx, 'n', self.ndim, lo=lo)
         req = []
         for k, p in enumerate(self.pattern):
@@ -1122,7 +1128,7 @@ class Reshape(ShapeContract):
                 req.append(None)
             else:
                 v = cx.int('d%d' % k)
-                cx.assume(v != -1 if self.domain == 'any' else v >= lo)
+                cx.assume(z3.And(v != -1, v != 0) if self.domain == 'nonzero' else v >= lo)
                 req.append(v)
         newshape = -1 if self.as_int else tuple(-1 if r is None else SInt(r) for r in req)
         return State(args=(FArr(w, lens, FLOAT), newshape), lens=lens, req=req, world=w, globals=g)
@@ -1141,7 +1147,7 @@ class Reshape(ShapeContract):
         if S.req.count(None) > 1:
             return True
         ok, _, _ = self.spec(cx, S)
-        if e.exc == 'ValueError' or (e.exc == 'ZeroDivisionError' and self.domain != 'positive'):
+        if e.exc == 'ValueError' or (e.exc == 'ZeroDivisionError' and self.domain == 'nonneg'):
             return z3.Not(ok)
         return False
 
@@ -1179,8 +1185,9 @@ def reshape_contracts():
         live.append(Reshape(ndim, pat))
     live += [Reshape(2, (-1,), as_int=True), Ravel(0), Ravel(1), Ravel(2)]
     live += [Reshape(3, ('s',)), Reshape(3, (-1,)), Reshape(3, ('s', 's')), Reshape(3, (-1, 's')), Ravel(3)]
-    parked += [Reshape(2, ('s', 's'), domain='nonneg'), Reshape(2, ('s',), domain='nonneg'), Reshape(2, (-1,), domain='nonneg'), Reshape(1, ('s', -1), domain='nonneg'),
-               Reshape(1, ('s', 's'), domain='any')]
+    live += [Reshape(1, ('s', 's'), domain='nonzero'), Reshape(2, ('s',), domain='nonzero'), Reshape(1, ('s', -1), domain='nonzero')]
+    # zero-length axes: recorded known finding (these contracts fail on the unchanged tree; they run so that the finding is re-established on every run)
+    live += [Reshape(2, ('s', 's'), domain='nonneg'), Reshape(2, ('s',), domain='nonneg'), Reshape(2, (-1,), domain='nonneg'), Reshape(1, ('s', -1), domain='nonneg')]
     return live, parked
 
 
@@ -1254,7 +1261,7 @@ PARKED = []  # contracts that FAIL on the unchanged tree (natively reproduced ca
 def parked_contracts():
     _, parked = transpose_contracts()
     _, rparked = reshape_contracts()
-    return parked + rparked + [Unravel(1, 0, size_check=True), Unravel(2, 1, size_check=True)]
+    return parked + rparked
 
 
 def contracts():
